@@ -164,6 +164,9 @@ def check(run, views, tier):
                 c11.check_send(view, F, c11.ASYNC, "async")
             if "client" in F.features:
                 c11.check_send(view, F, c11.BLOCK, "blocking")
+        # one element never allocates more than its 16-bit length (R-READEXACT's buffer clauses)
+        from .. import readerrules as _rr
+        _rr.r_readexact(run, F)
         saved = (run.explanation, run.trusted, run.not_decided)
         K = gr.r_depth(run, F, P)
         run.explanation, run.trusted, run.not_decided = saved
@@ -222,6 +225,12 @@ def check(run, views, tier):
                                    name, bad[0].split("::")[-1] if bad else "?", (bad[1] if bad else "")[:60]), site(body, node),
                                key="R-COSTSITES|%s|alloc|%s" % (fn, name.split("::")[-1]))
                         alloc_budget(run, F, T, fn, body, t, node)
+                        if name.split("::")[-1] in ("reserve_exact", "shrink_to_fit", "shrink_to") and t[2]:
+                            rty0 = operand_type(t)
+                            if any(m in rty0 for m in T["state_markers"]):
+                                run.ob("R-COSTSITES", "%s: no exact-size (re)allocation of a growing value list" % fn.split("::", 1)[-1], False,
+                                       "%s on %s: exact reservation defeats geometric growth, every push reallocates and copies the list (quadratic in the set / collection width)" % (
+                                           name.split("::")[-1], rty0[:60]), site(body, node), key="R-COSTSITES|%s|exact-growth|%s" % (fn, name.split("::")[-1]))
                         continue
                     if name not in cost or not t[2]:
                         continue
@@ -265,6 +274,33 @@ def check(run, views, tier):
                     run.ob("R-COSTSITES", "%s: loop at line %s is classified" % (fn.split("::", 1)[-1], n.get("ln")), fn.endswith("::parse_header_attributes"),
                            "a `%s` loop that is only left by `return`: its iteration count is not tied to one input token (retry / rescan loops make the cost of one token "
                            "depend on its content)" % (n.get("src") or "loop"), site(F.hir[fn], n), key="R-COSTSITES|%s|return-only-loop" % fn)
+        # an accumulator that is copied in every step of a fold / loop makes that step cost what has been built so far: quadratic formatting.
+        # Looked for in the whole parse cone *including* Display (the parser formats every value in trace!()).
+        for fn in sorted(pc):
+            fb = F.hir[fn]
+            if fb.get("from_expansion"):
+                continue
+            for n in _walk(fb["body"]):
+                if n.get("k") == "mcall" and n.get("name") in ("fold", "try_fold", "reduce", "scan") and n.get("args"):
+                    clo = unwrap(n["args"][-1])
+                    if clo.get("k") != "closure" or not clo.get("params"):
+                        continue
+                    acc = clo["params"][0]
+                    acc_id = acc.get("id") if acc.get("k") == "bind" else None
+                    copies = []
+                    for x in _walk(clo["body"]):
+                        exp = x.get("exp") or []
+                        is_fmt = any(e.split("::")[-1] in ("format", "format_args") for e in exp)
+                        cal = (x.get("callee") or "") if x.get("k") in ("call", "mcall") else ""
+                        if is_fmt or cal in T["copy"]:
+                            for y in _walk(x):
+                                if y.get("k") == "path" and y.get("res", {}).get("r") == "local" and y["res"].get("id") == acc_id:
+                                    copies.append(cal or "format!")
+                                    break
+                    n_sites += 1
+                    run.ob("R-COSTSITES", "%s: fold does not copy its accumulator" % fn.split("::", 1)[-1], not copies,
+                           "the closure of %s copies / re-formats the accumulator (%s) in every step: the cost of step i is the size built so far (quadratic in the value length)" % (
+                               n["name"], sorted(set(copies))[:3]), site(fb, n), key="R-COSTSITES|%s|fold-accumulator" % fn)
         run.floor("R-COSTSITES", n_sites, 12, "cost sites (loops and linear-cost calls) in the parse cone")
         run.floor("R-COSTSITES", len(fns), 35 if "async" in F.features else 20, "functions in the parse cone")
         run.meta.setdefault("coverage_extra", {})["classes_" + cfg] = {str(k): v for k, v in classes.items()}
